@@ -956,6 +956,7 @@ func main() {
 	threads := fs.Int("threads", 4, "stress threads")
 	ops := fs.Int("ops", 4, "ops per thread")
 	conns := fs.Int("conns", 3, "connections/datagrams per round")
+	churnDur := fs.Duration("dur", 3*time.Second, "churn: how long to run")
 	many := fs.Int("many", 0, "extra rounds with this many addresses, all listened on and then all closed")
 	wd := fs.Duration("watchdog", 2*time.Second, "deadlock watchdog")
 	stepTO := fs.Duration("steptimeout", 500*time.Millisecond, "per-step timeout of the schedule replayer")
@@ -1035,6 +1036,8 @@ func main() {
 				sc.finish(len(script), &wg, *wd, leaks0)
 			}
 		}
+	case "churn":
+		churn(tr, *churnDur, 25)
 	default:
 		hx.Fatal("unknown mode")
 	}
